@@ -567,7 +567,18 @@ DOMNode* DOMDocumentImpl::replaceChild(DOMNode *newChild, DOMNode *oldChild) {
 
         if((oldChild->getNodeType() == DOMNode::DOCUMENT_TYPE_NODE)
         || (oldChild->getNodeType() == DOMNode::ELEMENT_NODE))
-            return fParent.removeChild(oldChild);
+        {
+            fParent.removeChild(oldChild);
+
+            // insertBefore has cached newChild; if that is the node which
+            // has just been removed, the cache must not keep pointing to it
+            if(fDocElement == oldChild)
+                fDocElement = 0;
+            else if(fDocType == oldChild)
+                fDocType = 0;
+
+            return oldChild;
+        }
         else
             return removeChild(oldChild);
     }
